@@ -90,6 +90,7 @@ func concretiseAttestations(r *Replay) string {
 		vraw    byte
 		recok   bool
 		member  int // attester index or -1
+		negOf   int // non-member whose key has the X coordinate of this attester (its negated key), or -1
 		lessPrev bool
 	}
 	slots := make([]slot, maxT)
@@ -102,11 +103,19 @@ func concretiseAttestations(r *Replay) string {
 		s.vraw = att[65*i+64]
 		x, _ := probeInt(r, fmt.Sprintf("shape/recok/%d", i))
 		s.recok = x != 0
-		s.member = -1
+		s.member, s.negOf = -1, -1
 		for j := 0; j < nAtt; j++ {
 			if y, _ := probeInt(r, fmt.Sprintf("shape/member/%d/%d", i, j)); y != 0 {
 				s.member = j
 				break
+			}
+		}
+		if s.member < 0 {
+			for j := 0; j < nAtt; j++ {
+				if y, _ := probeInt(r, fmt.Sprintf("shape/xeq/%d/%d", i, j)); y != 0 {
+					s.negOf = j
+					break
+				}
 			}
 		}
 		if i > 0 {
@@ -260,7 +269,19 @@ func concretiseAttestations(r *Replay) string {
 			return "shape needs a successful recovery with recovery id 2/3"
 		}
 		role := signerRole(i)
-		a, b := signVariants(keys[assign[role]], digest)
+		signKey := keys[assign[role]]
+		if s.negOf >= 0 {
+			// the key with the same X coordinate as attester negOf and the opposite Y: d' = n - d
+			d := new(big.Int).Sub(secpN, keys[assign[s.negOf]].D)
+			buf := make([]byte, 32)
+			d.FillBytes(buf)
+			nk, err := ethcrypto.ToECDSA(buf)
+			if err != nil {
+				return "cannot build the negated key"
+			}
+			signKey = nk
+		}
+		a, b := signVariants(signKey, digest)
 		var pick []byte
 		// identical model bytes => identical real bytes; same signer with different bytes => the twin
 		for _, d := range done {
